@@ -339,14 +339,12 @@ func (t *Table) ToCSV(o *csv.Writer, startRow int, warnings io.Writer) (rowCount
 		// Construct a spreadsheet-style cell label.
 		colName := make([]byte, 10)
 		colNamePos := len(colName)
-		for x := len(row); x > 0; {
+		// Columns are named A..Z, AA, AB, ... (bijective base 26).
+		for x := len(row) + 1; x > 0; {
+			x--
 			colNamePos--
 			colName[colNamePos] = 'A' + byte(x%26)
 			x /= 26
-		}
-		if colNamePos == len(colName) {
-			colNamePos--
-			colName[colNamePos] = 'A'
 		}
 		colName = colName[colNamePos:]
 		// Print warnings.
